@@ -445,7 +445,7 @@ pub open spec fn sharded_frame(old: World, fin: World, root: PathV, n: usize, na
         g.contract(requires=[('', 'old(w).inv() && self.wf()')], ensures=ens)
         g.body_start('broadcast use group_sharded;\n        proof { lemma_shard_ids(key.hash, key.secondary_hash, self.spec_n()); '
                      'if self.configured_cfg(old(w).cfg()) { lemma_shard_configured(*self, *old(w), %s as usize); lemma_shard_configured(*self, *old(w), %s as usize); } }' % (S1, S2))
-        g.insert_after('let shard = self . shard ( h1 ) ;', '\n        proof { lemma_child(self.spec_root(), fmt_shard(h1)); lemma_child(self.spec_root(), fmt_shard(h2)); '
+        g.insert_after_stmt('let shard = self . shard (', '\n        proof { lemma_child(self.spec_root(), fmt_shard(h1)); lemma_child(self.spec_root(), fmt_shard(h2)); '
                        'assert(shard.spec_base() == shard_dir_of(self.spec_root(), h1)); }')
 
     # ---- maintenance helpers ------------------------------------------------------------------
@@ -496,7 +496,7 @@ pub open spec fn sharded_frame(old: World, fin: World, root: PathV, n: usize, na
                   'r.is_ok() ==> final(w).is_temp_dir(cowv(r.unwrap())) && !final(w).under_ro(cowv(r.unwrap())) && forall|nm: Seq<u8>| !final(w).under_ro(#[trigger] child(cowv(r.unwrap()), nm))'),
                  ])
     td.body_start('broadcast use group_sharded;')
-    td.insert_after('let shard = self . shard ( shard_id ) ;',
+    td.insert_after_stmt('let shard = self . shard (',
                     '\n        proof { if key.is_some() { lemma_shard_ids(key.unwrap().hash, key.unwrap().secondary_hash, self.spec_n()); } '
                     'lemma_shard_rw(*self, *old(w), shard_id); lemma_child(shard_dir_of(self.spec_root(), shard_id), temp_name()); '
                     '}')
@@ -548,7 +548,7 @@ pub open spec fn sharded_frame(old: World, fin: World, root: PathV, n: usize, na
         NM = 'str_bytes(key.name)'
         f.body_start('broadcast use group_sharded;\n        proof { lemma_shard_ids(key.hash, key.secondary_hash, self.spec_n()); '
                      'if first_byte_ok(%s) && !%s.contains(0x2fu8) { lemma_valid_key(%s); } }' % (NM, NM, NM))
-        f.insert_after('let mut shard = self . shard ( h2 ) ;',
+        f.insert_after_stmt('let mut shard = self . shard (',
                        '\n        proof { lemma_child(%s, fmt_shard(h1)); lemma_child(%s, fmt_shard(h2)); lemma_entries_differ(%s, h1, h2, %s); }' % (ROOT, ROOT, ROOT, NM))
         f.insert_before('let update = shard .',
                         'let ghost w0 = *w;\n        let ghost tgt = shard.id;\n        let ghost existed2 = (tgt == h2);\n'
@@ -565,7 +565,7 @@ pub open spec fn sharded_frame(old: World, fin: World, root: PathV, n: usize, na
                         '                lemma_sharded_from_write(w0, fin, %s, self.spec_n(), tgt, %s, pv(value));\n'
                         '            }\n'
                         '        }\n        ' % (NM, ROOT, ROOT, NM, ROOT, NM, NM, ROOT, NM, ROOT, NM, ROOT, NM))
-        f.insert_after('let update = shard . %s ( key . name , value ) ? ;' % opname,
+        f.insert_after_stmt('let update = shard . %s (' % opname,
                        '\n        let ghost w1 = *w;\n'
                        '        proof {\n'
                        '            assert forall|fin: World| #[trigger] sharded_maint_frame(w1, fin, %s, self.spec_n()) && fin.kept(w1) implies\n'
